@@ -984,7 +984,7 @@ var (
 	c03Laddrs  = []string{c03SrvAddr + ":53", c03DedicatedDev1 + ":53", c03DedicatedNone + ":53"}
 	c03Domains = [][]string{nil, {"d.test"}, {"x.test", "d.test"}}
 	c03Auths   = []string{"off", "on", "doh-only"}
-	c03DBs     = []string{"normal", "deleted", "detached", "readdressed", "moved", "deleted-nodevs", "noprofile", "reassigned", "auto-moved"}
+	c03DBs     = []string{"normal", "deleted", "detached", "readdressed", "auto-moved", "moved", "deleted-nodevs", "noprofile", "reassigned"}
 	c03Bools   = []bool{false, true}
 )
 
@@ -1115,7 +1115,7 @@ func TestVerifC03(t *testing.T) {
 	r := vrt.Start("C03")
 	c03Messages = agdtest.NewConstructor(t)
 
-	q := c03Dims{paths: 10, uis: 8, snis: 6, opts: 7, raddrs: 2, laddrs: 3, domains: 2, dbs: 4, autos: 1}
+	q := c03Dims{paths: 10, uis: 8, snis: 6, opts: 7, raddrs: 2, laddrs: 3, domains: 2, dbs: 5, autos: 1}
 	th := c03Dims{
 		paths: len(c03Paths), uis: len(c03UIs), snis: len(c03SNIs), opts: len(c03Opts),
 		raddrs: len(c03Raddrs), laddrs: len(c03Laddrs), domains: len(c03Domains), dbs: len(c03DBs), autos: 2,
